@@ -103,6 +103,10 @@ class Resolver:
         if isinstance(new, ast.Subscript) and isinstance(new.value, (ast.Tuple, ast.List)) and isinstance(new.slice, ast.Constant) and isinstance(new.slice.value, int) \
                 and not isinstance(new.slice.value, bool) and 0 <= new.slice.value < len(new.value.elts) and not any(isinstance(x, ast.Starred) for x in new.value.elts):
             return new.value.elts[new.slice.value]  # (a, b, c)[1] == b
+        if isinstance(new, ast.Subscript) and is_sym(new.value, "elem") and isinstance(new.slice, ast.Constant) and isinstance(new.slice.value, int) and not isinstance(new.slice.value, bool) \
+                and new.slice.value >= 0 and isinstance(e, ast.Subscript) and isinstance(e.value, ast.Name):
+            # pair[1] of a loop element `pair` is the component that `for a, b in ..` would have bound to b
+            return sym("item", new.value, ast.Constant(value=new.slice.value))
         if isinstance(new, ast.Call) and isinstance(new.func, ast.Name) and new.func.id == "tuple" and len(new.args) == 1 and not new.keywords and isinstance(new.args[0], (ast.Tuple, ast.List)) \
                 and not any(isinstance(x, ast.Starred) for x in new.args[0].elts):
             return ast.copy_location(ast.Tuple(elts=list(new.args[0].elts), ctx=ast.Load()), new)  # tuple((a, b, c)) == (a, b, c)
